@@ -14,6 +14,8 @@
 //!   insn  := (s <opcode>) | (bi v) | (si v) | (ldc-int v) | (ldc-long v) | (ldc-float bits) | (ldc-double bits)
 //!          | (ldc-str #s) | (ldc-cls #s) | (ld kind idx) | (st kind idx) | (iinc idx v) | (ret idx)
 //!          | (if cond label) | (goto label) | (jsr label) | (ts dflt low high (label*)) | (ls dflt ((key label)*))
+//!          | (fld 178..181 #cls #name #desc) | (inv 182..184 #cls #name #desc t|f) | (invi #cls #name #desc)
+//!          | (cls 187|189|192|193 #cls) | (newarray 4..11) | (mana #cls dims)
 //!   excs  := ( (start end handler (catch)?)* )
 //!   lines := () | ( ((label line)*) )
 //!   lvs   := () | ( ((start end #name (#desc)? (#sig)? index)*) )
@@ -25,9 +27,9 @@ use std::collections::{BTreeMap, BTreeSet};
 use std::io::Cursor;
 use std::panic::{catch_unwind, AssertUnwindSafe};
 use duke::tree::class::{ClassAccess, ClassFile, ClassName, ObjClassName};
-use duke::tree::field::{FieldDescriptor, FieldSignature};
-use duke::tree::method::code::{Code, Exception, Instruction, InstructionListEntry, Label, LabelRange, Loadable, LocalVariableName, Lv, LvIndex};
-use duke::tree::method::{Method, MethodAccess, MethodDescriptor, MethodName};
+use duke::tree::field::{FieldDescriptor, FieldName, FieldRef, FieldSignature};
+use duke::tree::method::code::{ArrayType, Code, Exception, Instruction, InstructionListEntry, Label, LabelRange, Loadable, LocalVariableName, Lv, LvIndex};
+use duke::tree::method::{Method, MethodAccess, MethodDescriptor, MethodName, MethodRef};
 use duke::tree::version::Version;
 use fvh::rng::Rng;
 use fvh::run::{main_for, Ans, Out, Tier};
@@ -56,6 +58,12 @@ enum RI {
 	Jsr(usize),
 	Ts(usize, i32, i32, Vec<usize>),
 	Ls(usize, Vec<(i32, usize)>),
+	/// opcode, pool reference kind (9 Fieldref, 10 Methodref, 11 InterfaceMethodref), class, name, descriptor
+	Ref(u8, u8, Vec<u32>, Vec<u32>, Vec<u32>),
+	InvokeInterface(Vec<u32>, Vec<u32>, Vec<u32>),
+	ClsOp(u8, Vec<u32>),
+	NewArray(u8),
+	MultiANewArray(Vec<u32>, u8),
 }
 
 struct RExc { start: usize, end: usize, handler: usize, catch: Option<Vec<u32>> }
@@ -100,6 +108,16 @@ fn parse_insn1(s: &Sexp) -> R<RI> {
 			[k, t] => Ok((num(k)?, t.as_nat()?)),
 			_ => Err("pair".to_owned()),
 		}).collect::<R<_>>()?),
+		("fld", [op, c, n, d]) => { let op: u8 = num(op)?; if !(178..=181).contains(&op) { return Err("fld op".into()) } RI::Ref(op, 9, c.as_cps()?, n.as_cps()?, d.as_cps()?) }
+		("inv", [op, c, n, d, i]) => {
+			let op: u8 = num(op)?; let i = i.as_bool()?;
+			if !((op == 182 && !i) || op == 183 || op == 184) { return Err("inv op".into()) }
+			RI::Ref(op, if i { 11 } else { 10 }, c.as_cps()?, n.as_cps()?, d.as_cps()?)
+		}
+		("invi", [c, n, d]) => RI::InvokeInterface(c.as_cps()?, n.as_cps()?, d.as_cps()?),
+		("cls", [op, c]) => { let op: u8 = num(op)?; if ![187, 189, 192, 193].contains(&op) { return Err("cls op".into()) } RI::ClsOp(op, c.as_cps()?) }
+		("newarray", [t]) => { let t: u8 = num(t)?; if !(4..=11).contains(&t) { return Err("atype".into()) } RI::NewArray(t) }
+		("mana", [c, d]) => RI::MultiANewArray(c.as_cps()?, num(d)?),
 		_ => return Err(format!("unknown insn {s}")),
 	})
 }
@@ -265,6 +283,10 @@ fn simple_insn(op: u8) -> Instruction {
 /// the `if` opcodes in the order of the request's condition numbers (JVMS §6.5)
 const IF_OPCODES: [u8; 16] = [0x99, 0x9a, 0x9b, 0x9c, 0x9d, 0x9e, 0x9f, 0xa0, 0xa1, 0xa2, 0xa3, 0xa4, 0xa5, 0xa6, 0xc6, 0xc7];
 
+fn mref(c: &[u32], n: &[u32], d: &[u32]) -> R<MethodRef> {
+	Ok(MethodRef { class: unsafe { ClassName::from_inner_unchecked(js(c)?) }, name: unsafe { MethodName::from_inner_unchecked(js(n)?) }, desc: unsafe { MethodDescriptor::from_inner_unchecked(js(d)?) } })
+}
+
 fn build_tree(r: &Req) -> R<ClassFile> {
 	let n = r.insns.len();
 	let mut wanted = BTreeSet::new();
@@ -316,6 +338,22 @@ fn build_tree(r: &Req) -> R<ClassFile> {
 			RI::Jsr(t) => Jsr(lab(*t)?),
 			RI::Ts(d, lo, hi, tb) => TableSwitch { default: lab(*d)?, low: *lo, high: *hi, table: tb.iter().map(|t| lab(*t)).collect::<R<_>>()? },
 			RI::Ls(d, ps) => LookupSwitch { default: lab(*d)?, pairs: ps.iter().map(|(k, t)| Ok((*k, lab(*t)?))).collect::<R<_>>()? },
+			RI::Ref(op, kind, c, n, d) => {
+				if *kind == 9 {
+					let f = FieldRef { class: unsafe { ObjClassName::from_inner_unchecked(js(c)?) }, name: unsafe { FieldName::from_inner_unchecked(js(n)?) }, desc: unsafe { FieldDescriptor::from_inner_unchecked(js(d)?) } };
+					match op { 178 => GetStatic(f), 179 => PutStatic(f), 180 => GetField(f), _ => PutField(f) }
+				} else {
+					let m = mref(c, n, d)?;
+					match op { 182 => InvokeVirtual(m), 183 => InvokeSpecial(m, *kind == 11), _ => InvokeStatic(m, *kind == 11) }
+				}
+			}
+			RI::InvokeInterface(c, n, d) => InvokeInterface(mref(c, n, d)?),
+			RI::ClsOp(op, c) => {
+				let c = unsafe { ClassName::from_inner_unchecked(js(c)?) };
+				match op { 187 => New(c), 189 => ANewArray(c), 192 => CheckCast(c), _ => InstanceOf(c) }
+			}
+			RI::NewArray(t) => NewArray(match t { 4 => ArrayType::Boolean, 5 => ArrayType::Char, 6 => ArrayType::Float, 7 => ArrayType::Double, 8 => ArrayType::Byte, 9 => ArrayType::Short, 10 => ArrayType::Int, _ => ArrayType::Long }),
+			RI::MultiANewArray(c, d) => MultiANewArray(unsafe { ClassName::from_inner_unchecked(js(c)?) }, *d),
 		};
 		instructions.push(InstructionListEntry { label: if wanted.contains(&k) { Some(lab(k)?) } else { None }, frame: None, instruction });
 	}
@@ -508,6 +546,7 @@ enum D {
 	Load(u8, u16), Store(u8, u16), Iinc(u16, i16), Ret(u16),
 	If(u8, i64), Goto(i64, bool /* wide */), Jsr(i64, bool),
 	Ts(i64, i32, i32, Vec<i64>), Ls(i64, Vec<(i32, i64)>),
+	Cp(u8, u16), InvokeInterface(u16, u8), NewArray(u8), MultiANewArray(u16, u8),
 }
 
 fn decode_one(code: &[u8], pc: usize) -> R<(D, usize)> {
@@ -564,6 +603,10 @@ fn decode_one(code: &[u8], pc: usize) -> R<(D, usize)> {
 				(D::Ls(dflt, t), o + 8 + 8 * n as usize)
 			}
 		}
+		0xb2..=0xb8 | 0xbb | 0xbd | 0xc0 | 0xc1 => (D::Cp(op, u16at(1)?), 3),
+		0xb9 => { if at(4)? != 0 { return Err("invokeinterface: fourth operand byte is not zero".into()) } (D::InvokeInterface(u16at(1)?, at(3)?), 5) }
+		0xbc => (D::NewArray(at(1)?), 2),
+		0xc5 => (D::MultiANewArray(u16at(1)?, at(3)?), 4),
 		_ => return Err(format!("opcode {op:#x} is outside the modelled instruction set")),
 	})
 }
@@ -682,6 +725,14 @@ fn check_denotes(r: &Req, w: &Written) -> Result<(), &'static str> {
 				};
 				if !ok { return Err("ldc2-constant") }
 			}
+			(RI::Ref(op, kind, c, n, d), D::Cp(op2, idx)) if op == op2 => { if !ref_at(cls, *kind, c, n, d, *idx) { return Err("reference-constant") } }
+			(RI::InvokeInterface(c, n, d), D::InvokeInterface(idx, count)) => {
+				if !ref_at(cls, 11, c, n, d, *idx) { return Err("reference-constant") }
+				if args_size(d) != Some(*count as usize) { return Err("invokeinterface-count") }
+			}
+			(RI::ClsOp(op, c), D::Cp(op2, idx)) if op == op2 => { if !class_at(cls, c, *idx) { return Err("class-constant") } }
+			(RI::NewArray(a), D::NewArray(b)) if a == b => {}
+			(RI::MultiANewArray(c, d), D::MultiANewArray(idx, d2)) if d == d2 => { if !class_at(cls, c, *idx) { return Err("class-constant") } }
 			(RI::Load(k, a), D::Load(k2, b)) if k == k2 && a == b => {}
 			(RI::Store(k, a), D::Store(k2, b)) if k == k2 && a == b => {}
 			(RI::Iinc(a, v), D::Iinc(b, v2)) if a == b && v == v2 => {}
@@ -755,6 +806,38 @@ fn check_denotes(r: &Req, w: &Written) -> Result<(), &'static str> {
 	Ok(())
 }
 
+fn class_at(c: &PClass, name: &[u32], idx: u16) -> bool {
+	matches!(c.pool.get(idx as usize), Some(PItem::Class(u)) if c.utf8(*u) == Some(&ascii(name)[..]))
+}
+
+fn ref_at(c: &PClass, kind: u8, cls: &[u32], name: &[u32], desc: &[u32], idx: u16) -> bool {
+	match c.pool.get(idx as usize) {
+		Some(PItem::Ref(tag, a, b)) => *tag == kind && class_at(c, cls, *a)
+			&& matches!(c.pool.get(*b as usize), Some(PItem::NameAndType(n, d)) if c.utf8(*n) == Some(&ascii(name)[..]) && c.utf8(*d) == Some(&ascii(desc)[..])),
+		_ => false,
+	}
+}
+
+/// JVMS §6.5 invokeinterface: `count` = 1 + argument slots (long and double take two); None = not a method descriptor
+fn args_size(d: &[u32]) -> Option<usize> {
+	let s: Vec<u8> = ascii(d);
+	if s.first() != Some(&b'(') { return None }
+	let mut i = 1;
+	let mut n = 1;
+	loop {
+		match s.get(i)? {
+			b')' => return Some(n),
+			b'D' | b'J' => { n += 2; i += 1; }
+			_ => {
+				while s.get(i) == Some(&b'[') { i += 1; }
+				if *s.get(i)? == b'L' { while *s.get(i)? != b';' { i += 1; } }
+				i += 1;
+				n += 1;
+			}
+		}
+	}
+}
+
 /// names are restricted to 1..=127 by the generators (modified UTF-8 is the identity there)
 fn ascii(s: &[u32]) -> Vec<u8> { s.iter().map(|&c| c as u8).collect() }
 
@@ -795,6 +878,19 @@ fn check_wellformed(w: &Written) -> Result<(), &'static str> {
 				if !matches!(c.pool.get(*i as usize), Some(PItem::Int(_) | PItem::Float(_) | PItem::Str(_) | PItem::Class(_) | PItem::Handle(..) | PItem::MethodType(_) | PItem::Dyn(17, ..))) { return Err("ldc-kind") }
 			}
 			D::Ldc2(i) => if !matches!(c.pool.get(*i as usize), Some(PItem::Long(_) | PItem::Double(_) | PItem::Dyn(17, ..))) { return Err("ldc2-kind") },
+			D::Cp(op, i) => {
+				let ok = match c.pool.get(*i as usize) {
+					Some(PItem::Ref(9, ..)) => (178..=181).contains(op),
+					Some(PItem::Ref(10, ..)) => (182..=184).contains(op),
+					Some(PItem::Ref(11, ..)) => *op == 183 || *op == 184,
+					Some(PItem::Class(_)) => [187, 189, 192, 193].contains(op),
+					_ => false,
+				};
+				if !ok { return Err("cp-kind") }
+			}
+			D::InvokeInterface(i, count) => if !matches!(c.pool.get(*i as usize), Some(PItem::Ref(11, ..))) || *count == 0 { return Err("invokeinterface") },
+			D::MultiANewArray(i, d) => if !c.is_class(*i) || *d == 0 { return Err("multianewarray") },
+			D::NewArray(t) => if !(4..=11).contains(t) { return Err("newarray") },
 			D::If(_, a) | D::Goto(a, _) | D::Jsr(a, _) => if !insn_at(*a) { return Err("branch-target") },
 			D::Ts(a, _, _, os) => if !insn_at(*a) || os.iter().any(|o| !insn_at(*o)) { return Err("branch-target") },
 			D::Ls(a, ps) => {
@@ -827,6 +923,7 @@ fn wellformed_domain(r: &Req) -> bool {
 		RI::If(_, t) | RI::Goto(t) | RI::Jsr(t) => insn(t),
 		RI::Ts(d, _, _, tb) => insn(d) && tb.iter().all(insn),
 		RI::Ls(d, ps) => insn(d) && ps.iter().all(|p| insn(&p.1)) && ps.windows(2).all(|x| x[0].0 < x[1].0),
+		RI::MultiANewArray(_, d) => *d >= 1,
 		_ => true,
 	}) && r.excs.iter().all(|e| e.start < n && e.handler < n)
 		&& r.lines.iter().flatten().all(|l| l.0 < n)
@@ -992,13 +1089,30 @@ fn rand_label(r: &mut Rng, n: usize, end_ok: bool, m: Mode, out: &mut Out) -> us
 	r.below(n.max(1))
 }
 
+/// field access, invocations, `new` & co: instructions with a constant-pool reference and no label
+fn rand_member(r: &mut Rng, m: Mode, out: &mut Out) -> Sexp {
+	let cls = *r.pick(&["C", "java/lang/Object", "p/Q", "[I"]);
+	let mdesc = if m.dirty && r.chance(1, 5) { out.stats.hit("member:bad-descriptor"); *r.pick(&["", "x", "(", "(L", "([", "(Lx", "(J"]) }
+		else { *r.pick(&["()V", "(I)V", "(JD)J", "([D[[Ljava/lang/String;I)V", "(Lx;)Lx;", "(DDDDDDDD)D"]) };
+	match r.below(11) {
+		0 | 1 => sx("fld", vec![Sexp::nat(r.range(178, 181)), Sexp::str(*r.pick(&["C", "p/Q"])), Sexp::str(*r.pick(&["f", "g", "m"])), Sexp::str(*r.pick(&["I", "J", "Lx;", "[I"]))]),
+		2 => sx("inv", vec![Sexp::nat(182), Sexp::str(cls), Sexp::str(*r.pick(&["m", "clone", "<init>"])), Sexp::str(mdesc), Sexp::bool(false)]),
+		3 | 4 => sx("inv", vec![Sexp::nat(r.range(183, 184)), Sexp::str(cls), Sexp::str(*r.pick(&["m", "<init>", "f"])), Sexp::str(mdesc), Sexp::bool(r.chance(1, 3))]),
+		5 | 6 => sx("invi", vec![Sexp::str(*r.pick(&["I", "p/Q"])), Sexp::str(*r.pick(&["m", "run"])), Sexp::str(mdesc)]),
+		7 | 8 => sx("cls", vec![Sexp::nat(*r.pick(&[187usize, 189, 192, 193])), Sexp::str(cls)]),
+		9 => sx("newarray", vec![Sexp::nat(r.range(4, 11))]),
+		_ => sx("mana", vec![Sexp::str(*r.pick(&["[[I", "[[Lx;", "[I"])), Sexp::nat(if m.dirty && r.chance(1, 3) { 0 } else { r.range(1, 3) })]),
+	}
+}
+
 fn rand_insn(r: &mut Rng, n: usize, m: Mode, out: &mut Out) -> Sexp {
 	let c = r.below(100);
-	let kind = match c { 0..=37 => "simple", 38..=45 => "push", 46..=55 => "ldc", 56..=65 => "local", 66..=69 => "iinc", 70..=71 => "ret",
+	let kind = match c { 0..=27 => "simple", 28..=37 => "member", 38..=45 => "push", 46..=55 => "ldc", 56..=65 => "local", 66..=69 => "iinc", 70..=71 => "ret",
 		72..=83 => "if", 84..=89 => "goto", 90..=91 => "jsr", 92..=95 => "tableswitch", _ => "lookupswitch" };
 	out.stats.hit(&format!("insn:{kind}"));
 	match kind {
 		"simple" => sx("s", vec![Sexp::nat(*r.pick(&SIMPLE))]),
+		"member" => rand_member(r, m, out),
 		"push" => if r.chance(1, 2) { sx("bi", vec![Sexp::int(*r.pick(&[-128i64, -1, 0, 5, 127]))]) } else { sx("si", vec![Sexp::int(*r.pick(&[-32768i64, -129, 0, 128, 32767]))]) },
 		"ldc" => rand_const(r),
 		"local" => sx(if r.chance(1, 2) { "ld" } else { "st" }, vec![Sexp::nat(r.below(5)), Sexp::nat(*r.pick(&IDX))]),
@@ -1328,6 +1442,39 @@ fn gen(r: &mut Rng, tier: Tier, out: &mut Out) {
 		for &i in &IDX { for &v in &[-32768i64, -129, -128, 127, 128, 32767] { b.push(sx("iinc", vec![Sexp::nat(i), Sexp::int(v)])); } b.push(sx("ret", vec![Sexp::nat(i)])); }
 		b.push(ret_insn());
 		out.stats.hit("stream:locals");
+		emit_code(out, &b, true);
+	}
+
+	// ---- 7b. invokeinterface: the count operand around the u8 limit (1 + argument slots), odd descriptors
+	for &(longs, ints) in &[(0usize, 0usize), (1, 1), (126, 0), (126, 1), (126, 2), (127, 0), (127, 1), (0, 254), (0, 255), (0, 256), (200, 0)] {
+		let d = format!("({}{})V", "J".repeat(longs), "I".repeat(ints));
+		let mut b = B::new();
+		b.push(sx("invi", vec![Sexp::str("I"), Sexp::str("m"), Sexp::str(&d)]));
+		b.push(ret_insn());
+		out.stats.hit("stream:invokeinterface-count");
+		emit_code(out, &b, 1 + 2 * longs + ints <= 255);
+	}
+	for d in ["()V", "(", "", "V", "()", "(I", "([", "([[", "(L;)V", "(La;", "(La", "([La;[[J)V", "(D[D)V", ")("] {
+		let mut b = B::new();
+		b.push(sx("invi", vec![Sexp::str("I"), Sexp::str("m"), Sexp::str(d)]));
+		b.push(ret_insn());
+		out.stats.hit("stream:invokeinterface-descriptor");
+		emit_code(out, &b, true);
+	}
+	// every member instruction once, twice the same reference (hash-consing of Fieldref / Methodref / NameAndType / Class)
+	{
+		let mut b = B::new();
+		for _ in 0..2 {
+			for op in 178..=181 { b.push(sx("fld", vec![Sexp::nat(op), Sexp::str("C"), Sexp::str("f"), Sexp::str("I")])); }
+			for (op, i) in [(182, false), (183, false), (183, true), (184, false), (184, true)] { b.push(sx("inv", vec![Sexp::nat(op), Sexp::str("C"), Sexp::str("f"), Sexp::str("(I)V"), Sexp::bool(i)])); }
+			b.push(sx("invi", vec![Sexp::str("C"), Sexp::str("f"), Sexp::str("(I)V")]));
+			for op in [187, 189, 192, 193] { b.push(sx("cls", vec![Sexp::nat(op), Sexp::str("C")])); }
+			for t in 4..=11 { b.push(sx("newarray", vec![Sexp::nat(t)])); }
+			b.push(sx("mana", vec![Sexp::str("[[C"), Sexp::nat(2)]));
+			b.push(sx("ldc-cls", vec![Sexp::str("C")]));
+		}
+		b.push(ret_insn());
+		out.stats.hit("stream:members-all");
 		emit_code(out, &b, true);
 	}
 
